@@ -43,6 +43,18 @@ CLAIMS = {
               "language guards are observed through the matrix, not modelled one by one. str.lower() modelled for ASCII."),
         technique="Lean 4 `decide +kernel` over regenerated finite tables + proofs about the detector model + exhaustive CLI matrix",
         ref="DESIGN.md §3 C15"),
+    "C07": dict(
+        text=("Kernel-checked theorems about the orchestrator state machine, for all rule plug-ins, file lists, worker counts and "
+              "completion orders: below the threshold the parallel entry point is the sequential one; per-file findings and exit "
+              "code are independent of the schedule (any two completion orders give permutations); a fresh object's parallel run "
+              "is a permutation of the sequential run whenever no cross-file finding exists (the hypothesis is forced: "
+              "crossfile_lost_witness, known finding F07a); to_dict/from_dict round-trips every field. The model is run on the "
+              "per-file results observed on the real tool and must reproduce the real pooled run *exactly, including order*, "
+              "for forced completion orders; CLI sequential vs --parallel compared field by field."),
+        note=("Real OS scheduling, pickling and process start-up are sampled, not modelled; completion orders are forced after all "
+              "futures finished. Cross-file equality is NOT claimed: it fails on the pinned tree (F07a, recorded)."),
+        technique="Lean 4 proof (list permutation lemmas over a parametric state-machine model) + differential runs through the real process pool",
+        ref="DESIGN.md §3 C07"),
 }
 ALL = [f"C{n:02d}" for n in range(1, 21)]
 NOT_YET = "machinery for this property is not built yet in this revision of /verif (planned, see DESIGN.md §3); not claimed"
